@@ -6,6 +6,7 @@ import (
 	"math/rand"
 	"os"
 	"path/filepath"
+	"regexp"
 	"strconv"
 	"strings"
 
@@ -235,6 +236,8 @@ func genYamlTestFile(r *rand.Rand, ruleId string) (string, bool) {
 // out as if it had been renumbered alone (no state carried from file to file), --check must write nothing and fail
 // iff some file would change, and a second run must change nothing.
 // args: check ("0"/"1"), then path, content pairs (walk order)
+var reC13TestFile = regexp.MustCompile(`^[0-9]{6}\.ya?ml$`)
+
 func oracleC13All(p *Pair, env *Env, a [][]byte) *Failure {
 	files := a
 	sb := mkSandbox(env)
@@ -246,6 +249,11 @@ func oracleC13All(p *Pair, env *Env, a [][]byte) *Failure {
 		path := string(files[i])
 		t[path] = files[i+1]
 		base := filepath.Base(path)
+		if !reC13TestFile.MatchString(base) {
+			// not a test file by its name (NNNNNN.yaml / NNNNNN.yml): left alone, and no reason for --check to fail
+			want[path] = files[i+1]
+			continue
+		}
 		id := base[:6]
 		exp, mixed := c13Expected(id, files[i+1])
 		if mixed {
@@ -313,6 +321,12 @@ func genC13Trees(r *rand.Rand, n int) []Case {
 				}
 			}
 			t["tests/regression/tests/REQUEST-920-X/"+id+pick(r, []string{".yaml", ".yml"})] = []byte(strings.Join(lines, "\n") + "\n")
+		}
+		// bystanders whose names nearly are test file names, misnumbered inside
+		for _, nm := range []string{"920100-yaml", "920101_yml", "920102.yamlx", "920103.yaml.bak", "920104.yml~", "x920105.yaml", "9201060.yaml", "92010.yml", "920107.YAML"} {
+			if chance(r, 0.4) {
+				t["tests/regression/tests/REQUEST-920-X/"+nm] = []byte("  - test_id: 7\n  - test_title: 920100-9\n\n\n")
+			}
 		}
 		files := treeArgs(t)
 		cases = append(cases, Case{Kind: "tree:renumber-all",
